@@ -616,13 +616,28 @@ const char *UtilContext::get_address(const char *token, uint32_t *address)
   // Skip spaces at beginning.
   while (*token == ' ' && *token != 0) { token++; }
 
-  // Search symbol table
-  ret = symbols.lookup(token, address);
+  // Search symbol table for the first word (write takes values after it).
+  char name[128];
+  size_t length = 0;
+
+  while (token[length] != ' ' && token[length] != 0) { length++; }
+
+  ret = -1;
+
+  if (length < sizeof(name))
+  {
+    memcpy(name, token, length);
+    name[length] = 0;
+
+    ret = symbols.lookup(name, address);
+  }
 
   if (ret == 0)
   {
-    while (*token != ' ' && *token != 0) { token++; }
-    return token;
+    // Symbols hold addresses in the CPU's units, like numbers do.
+    *address *= bytes_per_address;
+
+    return token + length;
   }
 
   token = get_num(token, address);
